@@ -348,7 +348,7 @@ func runConc(c *CaseCtx, cc concCfg) *concResult {
 		if op == "syncdir" && cc.AllDeadStart {
 			// a directory sync takes milliseconds on a real disk and none on tmpfs: give the queued workers the time a
 			// real fsync would (it changes nothing unless the lock is not held here)
-			time.Sleep(300 * time.Microsecond)
+			time.Sleep(3 * time.Millisecond)
 		}
 		return false, 0, nil
 	})
